@@ -157,10 +157,30 @@ func runCase(rt *rapid.T) {
 		nOps = rapid.IntRange(20, 90).Draw(rt, "capOps")
 	}
 	evictions := 0
+	var lagging []core.Duty // expired, expiry not yet emitted
 	for op := 0; op < nOps; op++ {
 		slot := uint64(rapid.IntRange(1, nSlots).Draw(rt, "slot"))
 		duty := core.Duty{Slot: slot, Type: kind.typ}
-		if rapid.IntRange(0, 39).Draw(rt, "expire?") == 0 && !kind.exempt {
+		if x := rapid.IntRange(0, 59).Draw(rt, "expire?"); x == 1 && !kind.exempt && !dl.IsExpired(duty) {
+			// the deadline passes but the trim lags behind (the expiry is emitted later): from now on
+			// partials for the duty are dropped although its entries are still there
+			dl.MarkExpired(duty)
+			lagging = append(lagging, duty)
+			trace = append(trace, "expire(trim lags)")
+			continue
+		} else if x == 2 && len(lagging) > 0 {
+			d := lagging[0]
+			lagging = lagging[1:]
+			dl.Emit(d)
+			synctest.Wait()
+			for k := range model {
+				if k.duty == d {
+					delete(model, k)
+				}
+			}
+			trace = append(trace, "late trim")
+			continue
+		} else if x == 0 && !kind.exempt && !dl.IsExpired(duty) {
 			dl.Expire(duty)
 			synctest.Wait()
 			for k := range model {
